@@ -5,12 +5,18 @@
    modelled by the difference equation the generated code computes, with the
    shift registers d1..dk (past inputs, initialised to `zero`) and m1 (past
    output, initialised to `zero`) kept as in the generated generator
-   (that the generated code computes this equation is property C04).
+   (that the generated code computes this equation is property C04; here it is
+   re-checked by the correspondence on every run).
+   Exceptions are explicit values: [Err "<exception type name>"].
    No proofs in this file. *)
-From Coq Require Import List Bool Arith ZArith QArith Qcanon Qround.
+From Coq Require Import List Bool Arith ZArith QArith Qcanon Qround String.
 From AL Require Import Base.CaseLib.
 Import ListNotations.
 Open Scope Qc_scope.
+
+Inductive res (A : Type) := Ok (a : A) | Err (e : string).
+Arguments Ok {A} a.
+Arguments Err {A} e.
 
 (* ---------------------------------------------------------------- numbers *)
 Definition zq (k : Z) : Qc := Q2Qc (inject_Z k).
@@ -19,6 +25,9 @@ Definition nq (n : nat) : Qc := zq (Z.of_nat n).
 Definition qabs (x : Qc) : Qc := if Qc_ltb x 0 then - x else x.
 (* floor of a rational *)
 Definition qfloor (x : Qc) : Z := Qfloor (this x).
+(* Python int(): truncation towards zero *)
+Definition qtrunc (x : Qc) : Z := Z.quot (Qnum (this x)) (Zpos (Qden (this x))).
+Definition is_int (x : Qc) : bool := Pos.eqb (Qden (this x)) 1.
 (* Python's  a % b  on rationals: a - b * floor(a / b); the sign follows the divisor.
    (b = 0 raises ZeroDivisionError in Python; callers test for it first.) *)
 Definition qmod (a b : Qc) : Qc := a - b * zq (qfloor (a / b)).
@@ -50,7 +59,7 @@ Definition mav_deque (c : Qc) (size : nat) (zero : Qc) (xs : list Qc) : list Qc 
 
 (* maverage.recursive: (1./size) * (1 - z**-size) / (1 - z**-1)
    numerator {0: c, size: -c}, denominator {0: 1, 1: -1}:
-   m0 = c*d0 + (-c)*d{size} + m1 *)
+   m0 = c*d0 + (-c)*d{size} + m1      (size = 1, c = 1.0: "d0 + -d1 + m1") *)
 Definition rec_step (c : Qc) (size : nat) (st : list Qc * Qc) (el : Qc) : (list Qc * Qc) * Qc :=
   let '(d, m1) := st in
   let m0 := c * el + (- c) * nth (size - 1) d 0 + m1 in
@@ -67,16 +76,19 @@ Definition mav_fir (c : Qc) (size : nat) (zero : Qc) (xs : list Qc) : list Qc :=
   mealy (fir_step c size) (repeat zero (size - 1)) xs.
 
 Inductive mav_strategy := MDeque | MRecursive | MFir.
-(* size = 0: "1. / size" raises ZeroDivisionError in all three strategies *)
+Definition mav_run (s : mav_strategy) (c : Qc) (size : nat) (zero : Qc) (xs : list Qc) : list Qc :=
+  match s with
+  | MDeque => mav_deque c size zero xs
+  | MRecursive => mav_recursive c size zero xs
+  | MFir => mav_fir c size zero xs
+  end.
+(* size = 0: "1. / size" raises ZeroDivisionError in deque and recursive;
+   maverage.fir(0) is sum(<empty generator>) = the int 0, calling it raises TypeError *)
 Definition maverage (s : mav_strategy) (c : Qc) (size : nat) (zero : Qc) (xs : list Qc)
-  : option (list Qc) :=
+  : res (list Qc) :=
   match size with
-  | O => None
-  | _ => Some (match s with
-               | MDeque => mav_deque c size zero xs
-               | MRecursive => mav_recursive c size zero xs
-               | MFir => mav_fir c size zero xs
-               end)
+  | O => match s with MFir => Err "TypeError" | _ => Err "ZeroDivisionError" end
+  | _ => Ok (mav_run s c size zero xs)
   end.
 
 (* ---------------------------------------------------------------- accumulate *)
@@ -101,39 +113,55 @@ Definition accumulate (s : acc_strategy) (xs : list Qc) : list Qc :=
   match s with AItertools => acc_itertools xs | AFunc => acc_func xs | AZ => acc_z xs end.
 
 (* ---------------------------------------------------------------- amdf
-   filt = (1 - z ** -lag).linearize()
-   integer lag k   : numerator {0: 1, k: -1}           (k = 0: the empty polynomial)
-   fractional lag  : left = int(lag), wr = lag - left, wl = 1. - wr (floats, exact
-                     values supplied by the harness); numerator {0: 1, left: -wl, left+1: -wr}
+   filt = (1 - z ** -lag).linearize()      (lag: int or float, exact value in Qc)
+   integral lag k  : numerator {0: 1, k: -1}           (k = 0: the empty polynomial)
+   fractional lag  : left = int(lag) (truncation), wr = lag - left, wl = 1. - wr;
+                     numerator {0: 1, left: -wl, left+1: -wr}
                      (left = 0: the two coefficients at key 0 are added: 1 + -wl)
-   negative lag    : ValueError("Non-causal filter") *)
-Inductive lagspec := LagInt (k : nat) | LagFrac (left : nat) (wl wr : Qc) | LagNeg.
+   (the float operations "lag - left" and "1. - wr" are exact for the lags the
+   harness uses: dyadic rationals with few fractional bits)
+   a negative key     : ValueError("Non-causal filter") when the filter is called *)
+Inductive lagspec := LagInt (k : Z) | LagFrac (left : Z) (wl wr : Qc).
+Definition lagspec_of (lag : Qc) : lagspec :=
+  if is_int lag then LagInt (Qnum (this lag))
+  else let left := qtrunc lag in
+       let wr := lag - zq left in
+       LagFrac left (1 - wr) wr.
+Definition lag_causal (lg : lagspec) : bool :=
+  match lg with LagInt k => (0 <=? k)%Z | LagFrac l _ _ => (0 <=? l)%Z end.
 Definition lag_regs (lg : lagspec) : nat :=
-  match lg with LagInt k => k | LagFrac l _ _ => S l | LagNeg => O end.
+  match lg with LagInt k => Z.to_nat k | LagFrac l _ _ => S (Z.to_nat l) end.
 Definition lag_step (lg : lagspec) (zero : Qc) (d : list Qc) (el : Qc) : list Qc * Qc :=
   match lg with
-  | LagInt O => (d, zero)          (* no term at all: the generated code is "yield zero" *)
-  | LagInt k => (shift k el d, el + - nth (k - 1) d 0)                      (* d0 + -dk *)
-  | LagFrac O wl wr => (shift 1 el d, (1 + - wl) * el + (- wr) * nth 0 d 0)
-  | LagFrac l wl wr => (shift (S l) el d, el + (- wl) * nth (l - 1) d 0 + (- wr) * nth l d 0)
-  | LagNeg => (d, zero)
+  | LagInt k =>
+      match Z.to_nat k with
+      | O => (d, zero)          (* no term at all: the generated code is "yield zero" *)
+      | S k' => (shift (S k') el d, el + - nth k' d 0)                       (* d0 + -dk *)
+      end
+  | LagFrac l wl wr =>
+      match Z.to_nat l with
+      | O => (shift 1 el d, (1 + - wl) * el + (- wr) * nth 0 d 0)
+      | S l' => (shift (S (S l')) el d, el + (- wl) * nth l' d 0 + (- wr) * nth (S l') d 0)
+      end
   end.
 Definition lag_filter (lg : lagspec) (zero : Qc) (xs : list Qc) : list Qc :=
   mealy (lag_step lg zero) (repeat zero (lag_regs lg)) xs.
 (* amdf_filter(sig, zero) = maverage(size)(abs(filt(sig, zero=zero)), zero=zero);
-   maverage's default strategy is "deque" *)
-Definition amdf (c : Qc) (size : nat) (zero : Qc) (lg : lagspec) (xs : list Qc) : option (list Qc) :=
-  match lg, size with
-  | LagNeg, _ => None
-  | _, O => None
-  | _, _ => Some (mav_deque c size zero (map qabs (lag_filter lg zero xs)))
+   maverage's default strategy is "deque"; maverage(size) is evaluated before filt(...) *)
+Definition amdf (c : Qc) (size : nat) (zero : Qc) (lag : Qc) (xs : list Qc) : res (list Qc) :=
+  let lg := lagspec_of lag in
+  match size with
+  | O => Err "ZeroDivisionError"
+  | _ => if lag_causal lg
+         then Ok (mav_deque c size zero (map qabs (lag_filter lg zero xs)))
+         else Err "ValueError"
   end.
 
 (* ---------------------------------------------------------------- envelope
    lowpass(cutoff) is a one-pole filter  g / (1 + a1 * z**-1)  (lowpass.pole:
    g = 1 - R, a1 = -R, floats computed by the library from cos/sqrt; their exact
-   values are supplied by the harness).  Call with memory None, zero 0.:
-   m0 = g*d0 + -(a1)*m1,  m1 = 0 initially. *)
+   values are read by the harness from lowpass(cutoff) itself).  Call with
+   memory None, zero 0.:   m0 = g*d0 + -(a1)*m1,  m1 = 0 initially. *)
 Definition onepole_step (g a1 : Qc) (m1 : Qc) (el : Qc) : Qc * Qc :=
   let m0 := g * el + - a1 * m1 in (m0, m0).
 Definition lowpass_call (g a1 : Qc) (xs : list Qc) : list Qc := mealy (onepole_step g a1) 0 xs.
@@ -147,16 +175,15 @@ Definition envelope (s : env_strategy) (g a1 : Qc) (xs : list Qc) : list eout :=
   | ERms => map Sqrt (lowpass_call g a1 (map (fun v => v * v) xs))         (* lowpass(sig ** 2) ** .5 *)
   end.
 
-(* ---------------------------------------------------------------- clip
-   None result = ValueError("Higher clipping limit is smaller than lower one") *)
-Definition clip (low high : option Qc) (xs : list Qc) : option (list Qc) :=
+(* ---------------------------------------------------------------- clip *)
+Definition clip (low high : option Qc) (xs : list Qc) : res (list Qc) :=
   match low, high with
-  | None, None => Some xs
-  | None, Some h => Some (map (fun el => if Qc_ltb el h then el else h) xs)
-  | Some l, None => Some (map (fun el => if Qc_ltb l el then el else l) xs)
+  | None, None => Ok xs
+  | None, Some h => Ok (map (fun el => if Qc_ltb el h then el else h) xs)
+  | Some l, None => Ok (map (fun el => if Qc_ltb l el then el else l) xs)
   | Some l, Some h =>
-      if Qc_ltb h l then None
-      else Some (map (fun el => if Qc_ltb h el then h else if Qc_ltb el l then l else el) xs)
+      if Qc_ltb h l then Err "ValueError"
+      else Ok (map (fun el => if Qc_ltb h el then h else if Qc_ltb el l then l else el) xs)
   end.
 
 (* ---------------------------------------------------------------- zcross *)
@@ -182,6 +209,9 @@ Definition zcross (h first_sign : Qc) (xs : list Qc) : list Z :=
 (* ---------------------------------------------------------------- unwrap *)
 (* min(a, b, key=abs): the first of the minimal ones *)
 Definition minabs (a b : Qc) : Qc := if Qc_ltb (qabs b) (qabs a) then b else a.
+(* one loop iteration's update of delta when |d_diff| > max_delta *)
+Definition uw_corr (step d_diff : Qc) : Qc :=
+  - d_diff + minabs (qmod d_diff step) (qmod d_diff (- step)).
 (* result: outputs produced, and whether the generator then died with
    ZeroDivisionError (step = 0 reached in "% step") *)
 Fixpoint uw_go (max_delta step d0 delta : Qc) (xs : list Qc) : list Qc * bool :=
@@ -192,7 +222,7 @@ Fixpoint uw_go (max_delta step d0 delta : Qc) (xs : list Qc) : list Qc * bool :=
       if Qc_ltb max_delta (qabs d_diff) then
         if Qc_eqb step 0 then ([], true)
         else
-          let delta' := delta + (- d_diff + minabs (qmod d_diff step) (qmod d_diff (- step))) in
+          let delta' := delta + uw_corr step d_diff in
           let '(o, e) := uw_go max_delta step d1 delta' r in ((d1 + delta') :: o, e)
       else
         let '(o, e) := uw_go max_delta step d1 delta r in ((d1 + delta) :: o, e)
